@@ -207,7 +207,7 @@ def step (st : DState) (line : String) : DState × List String :=
       | none => (st, ["bad-op"])
       | some (cs, _) =>
         let members := st.pending
-        hexOp { st with pending := [] } (do let cfg ← parseMgrCfg ps; Hexital.init cfg cs members)
+        hexOp { st with pending := [] } (do let cfg ← parseMgrCfg ps; Hexital.init cfg ((param ps "tf").map String.toUpper) cs members)
   | "hadd" :: _ =>
     match st.hex with
     | some h => hexOp { st with pending := [] } (h.addIndicators st.pending)
